@@ -39,12 +39,12 @@ PROPS = {
     "C17": {
         "level_text": "Kernel-checked theorems on the parse/Display/TOML model: exact error/salvage characterisation (parse_exact, "
                       "parse_too_many_slashes) and the Display/TOML round trips for all well-formed specs; differential check of parse on structured, "
-                      "single-fault and arbitrary Unicode strings (verdict, salvaged filters, decisions) and of the real to_toml/from_toml and Display round trips.",
+                      "single-fault and arbitrary Unicode strings (verdict, salvaged filters, decisions) and of the real to_toml/from_toml and Display round trips. Companion Props/C17Env: the specification taken from RUST_LOG (LogSpecification::env / env_or_parse behind Logger::try_with_env*): unset = off, set = parse of the value, the variable is used iff set and well-formed, an error carries the salvage of the GIVEN string, nothing is mixed, RUST_LOG = Display text restores the specification (env_unset_is_off, envOrParse_env_wins, envOrParse_fallback, envOrParse_err_is_given, envOrParse_one_of_two, envOrParse_ok_iff, env_display_roundtrip); ENVPARSE op: the real functions with RUST_LOG set/removed for the call.",
         "level_note": "Trusted: Lean kernel; regex validity bit and the toml crate's lexical layer are outside the model (validated, not proved); "
                       "Unicode lower-casing argument (only U+212A folds into ASCII).",
-        "correspondence": "Spec.parse/display/toToml/fromToml vs LogSpecification::parse/Display/to_toml/from_toml",
+        "correspondence": "Spec.parse/display/toToml/fromToml/envParse/envOrParse vs LogSpecification::parse/Display/to_toml/from_toml/env/env_or_parse (and the verdict of Logger::try_with_env / try_with_env_or_str)",
         "rule": "structured specs (Display/TOML round trip), single-fault strings with known salvage, too many slashes, strings over "
-                "the spec alphabet incl. Unicode whitespace and case-folding confusables; non-trivial = decision grid or salvage oracle evaluated",
+                "the spec alphabet incl. Unicode whitespace and case-folding confusables; in a third of the cases the specification from the environment (RUST_LOG unset / well-formed / malformed / bad regex, with and without fallback string) and its decisions on a grid; non-trivial = decision grid or salvage oracle evaluated",
         "trusted": SPEC_TRUST + ["toml crate lexical layer (validated by the real to_toml -> from_toml round trip, not proved)"],
     },
     "C03": {
